@@ -446,6 +446,10 @@ def run(ctx):
     rule_r3(facts, ctx)
     rule_r4(facts, ctx)
     rule_r6(facts, ctx, cg)
+    from .. import controls
+    controls.expect(ctx, "C04.R1", rule_r1, "stream::NCReadStream::eof", "emptiness read before liveness")
+    controls.expect(ctx, "C04.R2", rule_r2, "stream::NCReadStream::eof", "count <= 2")
+    controls.expect(ctx, "C04.R3", rule_r3, "untimed", "Condvar::wait_while without timeout")
     ctx.floor("C04.R6", 3, "amount reads in ReadStream::{wait_for_read,eof}, WriteStream::wait_for_write")
     ctx.floor("C04.R1", 3, "liveness reads in read-end methods that also read the amount: ReadStream::{wait_for_read,eof}, NCReadStream::{wait,eof}")
     ctx.floor("C04.R2", 10, "verdict definitions in wait/closed/eof of the four stream ends")
